@@ -15,7 +15,34 @@ int xv_threw; uint64_t xv_clock, xv_rmw_old; _Bool xv_cas_ok;
 
 /* ---- types ---- */
 struct T { uint64_t val; };                          /* an instance of the user's data structure: one word */
-struct read_indicator { uint64_t _counter; };
+/* read_indicator: the member list `std::atomic<uint64_t> NAME{init};` is read from the header on every run (unit.py -> -DXV_RI_FIELDS=
+ * XV_RI_FIELD(name, init)...), so the unit does not depend on how the indicator represents its occupancy (one counter, ingress/egress, ...) */
+#define XV_RI_FIELD(n, i) uint64_t n;
+struct read_indicator { XV_RI_FIELDS };
+#undef XV_RI_FIELD
+static void ri_init(struct read_indicator* p) {           /* default member initialisers */
+#define XV_RI_FIELD(n, i) p->n = (i);
+  XV_RI_FIELDS
+#undef XV_RI_FIELD
+}
+static void ri_havoc(struct read_indicator* p) {
+#define XV_RI_FIELD(n, i) p->n = nondet_u64();
+  XV_RI_FIELDS
+#undef XV_RI_FIELD
+}
+static _Bool ri_same(struct read_indicator* a, struct read_indicator* b) {
+  _Bool r = 1;
+#define XV_RI_FIELD(n, i) r = r && a->n == b->n;
+  XV_RI_FIELDS
+#undef XV_RI_FIELD
+  return r;
+}
+static _Bool ri_is_cell(void* a, struct read_indicator* p) {
+#define XV_RI_FIELD(n, i) if (a == (void*)&p->n) return 1;
+  XV_RI_FIELDS
+#undef XV_RI_FIELD
+  return 0;
+}
 struct xv_mutex { _Bool held; };                     /* std::mutex: held / not held */
 struct left_right {
   struct xv_mutex _writer_mutex; int _version_index; int _lr_indicator;
@@ -24,7 +51,6 @@ struct left_right {
 };
 struct read_guard { struct read_indicator* _indicator; };   /* read_indicator& _indicator */
 struct xv_lock_guard { struct xv_mutex* m; };
-#define MAX_READERS ((uint64_t)1 << 62)
 
 /* ---- monitors: per shared cell, what the function under test did to it ---- */
 enum { C_VER = 0, C_LRI = 1, C_CNT0 = 2, C_CNT1 = 3, C_OTHER = 4, N_CELLS = 5 };
@@ -37,11 +63,13 @@ struct cellmon {
 };
 struct cellmon m_ver, m_lri, m_c0, m_c1, m_other;   /* separate objects, accessed by name only (no symbolic pointers/indices: keeps the SAT instance small) */
 struct left_right* mon_self;
+_Bool env_busy;          /* the environment is executing (its accesses are not the function's; no nested environment step) */
+unsigned fn_steps;       /* atomic accesses + functor calls of the function under test */
 static int cell_of(void* a) {
   if (a == (void*)&mon_self->_version_index) return C_VER;
   if (a == (void*)&mon_self->_lr_indicator) return C_LRI;
-  if (a == (void*)&mon_self->_read_indicator1._counter) return C_CNT0;
-  if (a == (void*)&mon_self->_read_indicator2._counter) return C_CNT1;
+  if (ri_is_cell(a, &mon_self->_read_indicator1)) return C_CNT0;     /* any member of indicator 1 */
+  if (ri_is_cell(a, &mon_self->_read_indicator2)) return C_CNT1;
   return C_OTHER;
 }
 #define UPD_LOAD(M) do { if (M.n_load == 0) { M.first_load_clk = xv_clock; M.all_loads_sc = 1; } \
@@ -51,14 +79,15 @@ static int cell_of(void* a) {
   M.n_rmw++; M.rmw2_clk = xv_clock; M.rmw2_old = oldv; M.rmw2_new = newv; M.rmw2_ord = o; } while (0)
 #define DISPATCH(U) do { int c = cell_of(addr); if (c == C_VER) U(m_ver); else if (c == C_LRI) U(m_lri); else if (c == C_CNT0) U(m_c0); \
   else if (c == C_CNT1) U(m_c1); else U(m_other); } while (0)
-static void mon_load(void* addr, uint64_t v, int o) { DISPATCH(UPD_LOAD); }
-static void mon_store(void* addr, uint64_t v, int o) { DISPATCH(UPD_STORE); }
-static void mon_rmw(void* addr, uint64_t oldv, uint64_t newv, int o) { DISPATCH(UPD_RMW); }
+static void mon_load(void* addr, uint64_t v, int o) { if (env_busy) return; fn_steps++; DISPATCH(UPD_LOAD); }
+static void mon_store(void* addr, uint64_t v, int o) { if (env_busy) return; fn_steps++; DISPATCH(UPD_STORE); }
+static void mon_rmw(void* addr, uint64_t oldv, uint64_t newv, int o) { if (env_busy) return; fn_steps++; DISPATCH(UPD_RMW); }
 static void mon_reset(struct left_right* s) {
-  mon_self = s; xv_clock = 1; xv_threw = 0;
+  mon_self = s; xv_clock = 1; xv_threw = 0; env_busy = 0; fn_steps = 0;
   struct cellmon z = {0}; m_ver = z; m_lri = z; m_c0 = z; m_c1 = z; m_other = z;
 }
-#define CM(idx, f) ((idx) == 0 ? m_c0.f : m_c1.f)      /* monitor field of counter idx */
+#define CM(idx, f) ((idx) == 0 ? m_c0.f : m_c1.f)      /* monitor field of read indicator idx (all its members together) */
+#define RMW_BY_ONE(old, new) ((new) == (old) + 1 || (new) == (old) - 1)
 static unsigned total_stores(void) { return m_ver.n_store + m_lri.n_store + m_c0.n_store + m_c1.n_store + m_other.n_store; }
 static unsigned total_rmws(void) { return m_ver.n_rmw + m_lri.n_rmw + m_c0.n_rmw + m_c1.n_rmw + m_other.n_rmw; }
 
@@ -81,13 +110,35 @@ enum { R_IDLE = 0, R_GOTV = 1, R_ARRIVED = 2, R_READING = 3 };
 int r_state, r_vi, r_inst; uint64_t r_arrive_clk, r_lri_clk; unsigned r_cycles;
 _Bool env_on; int env_kind;       /* 1: we are a writer (readers move); 2: we are a reader (writers and other readers move) */
 struct left_right* env_self;
-#define CNT(s, i) ((i) == 0 ? (s)->_read_indicator1._counter : (s)->_read_indicator2._counter)
+/* Ghost occupancy of the two indicators: arrivals - departures of the environment's readers.  The environment never touches the
+ * indicator's members itself: a reader arrives/departs by running the REAL lowered arrive()/depart(), whatever they do. */
+unsigned inside0, inside1; _Bool occupancy_tracked;
+int lin_watch; _Bool lin_zero;    /* empty() on indicator lin_watch is running; lin_zero: its occupancy was 0 at some instant of the call */
+static void ri_arrive(struct read_indicator* self); static void ri_depart(struct read_indicator* self);
+static void lin_note(void) { if ((lin_watch == 0 && inside0 == 0) || (lin_watch == 1 && inside1 == 0)) lin_zero = 1; }
+static void env_arrive(int i) {
+  _Bool b = env_busy; env_busy = 1;
+  if (i == 0) { ri_arrive(&env_self->_read_indicator1); inside0++; } else { ri_arrive(&env_self->_read_indicator2); inside1++; }
+  env_busy = b;
+}
+static void env_depart(int i) {
+  _Bool b = env_busy; env_busy = 1;
+  if (i == 0) { ri_depart(&env_self->_read_indicator1); inside0--; } else { ri_depart(&env_self->_read_indicator2); inside1--; }
+  env_busy = b; lin_note();
+}
 static void r_step(void) {
   struct left_right* s = env_self;
   if (r_state == R_IDLE)         { r_vi = s->_version_index; r_state = R_GOTV; }
-  else if (r_state == R_GOTV)    { if (r_vi == 0) s->_read_indicator1._counter++; else s->_read_indicator2._counter++; r_state = R_ARRIVED; r_arrive_clk = xv_clock; }
+  else if (r_state == R_GOTV)    { env_arrive(r_vi); r_state = R_ARRIVED; r_arrive_clk = xv_clock; }
   else if (r_state == R_ARRIVED) { r_inst = s->_lr_indicator; r_lri_clk = xv_clock; r_state = R_READING; }
-  else                           { if (r_vi == 0) s->_read_indicator1._counter--; else s->_read_indicator2._counter--; r_state = R_IDLE; r_cycles++; }
+  else                           { env_depart(r_vi); r_state = R_IDLE; r_cycles++; }
+}
+/* two more readers (the property's quantifier is 1..3 readers): only their arrive/depart matters to a writer; the version they
+ * arrive on is one they read at some earlier time, i.e. either value */
+struct oreader { _Bool on; int vi; unsigned cycles; } o1, o2;
+static void o_step(struct oreader* o) {
+  if (!o->on) { o->vi = nondet_bool() ? 1 : 0; env_arrive(o->vi); o->on = 1; }
+  else { env_depart(o->vi); o->on = 0; o->cycles++; }
 }
 static _Bool r_on(int i) { return (r_state == R_ARRIVED || r_state == R_READING) && r_vi == i; }
 static _Bool r_reading(struct left_right* s, struct T* x);
@@ -115,10 +166,12 @@ static void xv_ufunc(struct T* x) {      /* the update functor: x := 3x + k (k p
 }
 #define XV_UFUNC(x) xv_ufunc(&(x))
 #define XV_UFUNC_RV(x) (xv_ufunc(&(x)), (void)(uf_consumed = 1))      /* std::forward<Func>(func)(x): an rvalue functor is consumed by the call */
-unsigned rf_n; int rf_inst; uint64_t rf_clk, rf_result, in_rk;
+unsigned rf_n; int rf_inst; uint64_t rf_clk, rf_result, in_rk; _Bool rf_e0, rf_e1;
+static _Bool ri_empty(struct read_indicator* self);
 static uint64_t xv_rfunc(struct T* x) {   /* the read functor */
   struct left_right* s = mon_self;
-  rf_n++; rf_inst = inst_id(s, x); rf_clk = ++xv_clock;
+  rf_n++; rf_inst = inst_id(s, x); rf_clk = ++xv_clock; fn_steps++;
+  { _Bool b = env_busy; env_busy = 1; rf_e0 = ri_empty(&s->_read_indicator1); rf_e1 = ri_empty(&s->_read_indicator2); env_busy = b; }   /* what a writer would see right now */
   if (in_throw != 0) { XV_THROW(functor); return 0; }
   rf_result = x->val ^ in_rk;
   return rf_result;
@@ -129,7 +182,25 @@ static uint64_t xv_rfunc(struct T* x) {   /* the read functor */
 /* ---- glue for the lowered text ---- */
 #define RI_arrive(x) ri_arrive(&(x))
 #define RI_depart(x) ri_depart(&(x))
-#define RI_empty(x)  ri_empty(&(x))
+#define RI_empty(x)  ri_empty_logged(&(x))
+/* every empty() the function under test performs: which indicator, result, clocks; and the linearizability obligation */
+struct emlog { unsigned n; uint64_t first_clk, last_ret_clk; _Bool last_res; };
+struct emlog em0, em1; unsigned em_other;
+#define EM(idx, f) ((idx) == 0 ? em0.f : em1.f)
+static _Bool ri_empty(struct read_indicator* self);
+static _Bool ri_empty_logged(struct read_indicator* p) {
+  int i = p == &mon_self->_read_indicator1 ? 0 : p == &mon_self->_read_indicator2 ? 1 : 2;
+  uint64_t c0 = ++xv_clock;
+  lin_watch = i; lin_zero = (i == 0 ? inside0 == 0 : i == 1 ? inside1 == 0 : 1);
+  _Bool r = ri_empty(p);
+  lin_watch = 2;
+  /* true only if the indicator's occupancy was 0 at some instant between call and return (readers come and go meanwhile) */
+  if (occupancy_tracked && r) XV_OBL("lr.indicator.empty_linearizable", lin_zero);
+  if (i == 0) { if (em0.n == 0) em0.first_clk = c0; em0.n++; em0.last_res = r; em0.last_ret_clk = ++xv_clock; }
+  else if (i == 1) { if (em1.n == 0) em1.first_clk = c0; em1.n++; em1.last_res = r; em1.last_ret_clk = ++xv_clock; }
+  else em_other++;
+  return r;
+}
 #define LR_get_read_indicator(recv, idx) (*lr_get_read_indicator(&(recv), (idx)))
 #define XV_INIT__indicator(self, v) ((self)->_indicator = &(v))
 #define XV_INIT__left(self, v)  ((self)->_left = (v))
@@ -151,7 +222,8 @@ static void lr_toggle_logged(struct left_right* self) {
 #define LR_TOGGLE(self) lr_toggle_logged(self)
 
 /* loop cut of wait_for_readers' spin loop: the body is empty after dropping yield(); what changes between iterations
- * is the environment (called inside the condition's atomic load).  The environment is closed under repetition. */
+ * is the environment (called inside the condition's atomic accesses).  In terms of reader states and occupancy the environment
+ * is closed under repetition (h_env_closed); the indicator's members are only ever changed by the real arrive()/depart(). */
 #define XV_INV_WAIT 1
 #define XV_HAVOC_WAIT XV_ENV(); XV_ENV()
 
@@ -162,48 +234,54 @@ static _Bool r_reading(struct left_right* s, struct T* x) {
 }
 #ifdef XV_INT
 void xv_env(void) {
-  if (!env_on) return;
+  if (!env_on || env_busy) return;
   struct left_right* s = env_self;
   if (env_kind == 1) {
-    /* any number of steps of the tracked reader: between two accesses of the writer the shared words it reads do not
-     * change, so its step function is deterministic and f^7 = f^3 (checked by h_env_closed): 0..6 steps are all there is */
-    if (nondet_bool()) r_step(); if (nondet_bool()) r_step(); if (nondet_bool()) r_step();
-    if (nondet_bool()) r_step(); if (nondet_bool()) r_step(); if (nondet_bool()) r_step();
-    /* all other readers: arrive and depart at will */
-    uint64_t o0 = nondet_u64(), o1 = nondet_u64(); XV_ASSUME(o0 < MAX_READERS && o1 < MAX_READERS);
-    s->_read_indicator1._counter = o0 + (r_on(0) ? 1 : 0);
-    s->_read_indicator2._counter = o1 + (r_on(1) ? 1 : 0);
+    /* the three readers, interleaved: per round the tracked reader may take two steps and the others one each.  Between two accesses
+     * of the writer the words the readers read do not change; the tracked reader's step function satisfies f^7 = f^3 (h_env_closed),
+     * so its 0..6 steps are complete; the other two can finish a cycle and start the next (3 steps). */
+    if (nondet_bool()) r_step(); if (nondet_bool()) r_step(); if (nondet_bool()) o_step(&o1); if (nondet_bool()) o_step(&o2);
+    if (nondet_bool()) r_step(); if (nondet_bool()) r_step(); if (nondet_bool()) o_step(&o1); if (nondet_bool()) o_step(&o2);
+    if (nondet_bool()) r_step(); if (nondet_bool()) r_step(); if (nondet_bool()) o_step(&o1); if (nondet_bool()) o_step(&o2);
   } else {
     /* writers (any number of complete or partial updates) and other readers: every shared word may change;
      * guarantee of the writers used: the version index and the indicator stay in {0,1} */
     s->_version_index = nondet_bool(); s->_lr_indicator = nondet_bool() ? READ_LEFT : READ_RIGHT;
-    s->_read_indicator1._counter = nondet_u64(); s->_read_indicator2._counter = nondet_u64();
+    ri_havoc(&s->_read_indicator1); ri_havoc(&s->_read_indicator2);
     s->_left.val = nondet_u64(); s->_right.val = nondet_u64();
   }
 }
 #endif
-
+/* a quiescent indicator state (its own empty() says so, no interference) with the environment's readers placed on it by real arrive() calls */
+static void place_readers(struct left_right* s) {
+  env_busy = 1;
+  XV_ASSUME(ri_empty(&s->_read_indicator1) && ri_empty(&s->_read_indicator2));
+  env_busy = 0; inside0 = 0; inside1 = 0; occupancy_tracked = 1;
+  if (r_on(0)) env_arrive(0); if (r_on(1)) env_arrive(1);
+  o1.on = nondet_bool(); o1.vi = nondet_bool() ? 1 : 0; o2.on = nondet_bool(); o2.vi = nondet_bool() ? 1 : 0; o1.cycles = 0; o2.cycles = 0;
+  if (o1.on) env_arrive(o1.vi); if (o2.on) env_arrive(o2.vi);
+  in_c0 = inside0; in_c1 = inside1;
+  xv_clock = 1;
+}
 
 /* ---- state ---- */
 static void havoc_lr(struct left_right* s) {
   s->_writer_mutex.held = nondet_bool();
   s->_version_index = nondet_int(); s->_lr_indicator = nondet_int();
-  s->_read_indicator1._counter = nondet_u64(); s->_read_indicator2._counter = nondet_u64();
+  ri_havoc(&s->_read_indicator1); ri_havoc(&s->_read_indicator2);
   s->_left.val = nondet_u64(); s->_right.val = nondet_u64();
   XV_ASSUME(s->_version_index == 0 || s->_version_index == 1);
   XV_ASSUME(s->_lr_indicator == READ_LEFT || s->_lr_indicator == READ_RIGHT);
-  XV_ASSUME(s->_read_indicator1._counter < MAX_READERS && s->_read_indicator2._counter < MAX_READERS);
   mon_reset(s);
   mtx_locks = 0; mtx_unlocks = 0; mtx_bad = 0; mtx_lock_clk = 0; mtx_unlock_clk = 0;
   uf_n = 0; uf_excl_bad = 0; uf_consumed = 0; uf_use_after_move = 0; rf_n = 0; rf_inst = 2; rf_clk = 0; rf_result = 0; wait_n = 0; tog_n = 0; tog_enter_clk = 0; tog_exit_clk = 0; cur_update = 0;
   in_k = nondet_u64(); in_k2 = nondet_u64(); in_rk = nondet_u64(); in_throw = nondet_uint(); XV_ASSUME(in_throw <= 2);
   in_ver = s->_version_index; in_lri = s->_lr_indicator; in_left = s->_left.val; in_right = s->_right.val;
-  in_c0 = s->_read_indicator1._counter; in_c1 = s->_read_indicator2._counter;
+  in_c0 = 0; in_c1 = 0; inside0 = 0; inside1 = 0; occupancy_tracked = 0; lin_watch = 2; lin_zero = 0;
+  { struct emlog z = {0}; em0 = z; em1 = z; em_other = 0; } o1.on = 0; o2.on = 0; o1.vi = 0; o2.vi = 0; o1.cycles = 0; o2.cycles = 0;
   env_self = s; env_on = 0; env_kind = 0;
   r_state = nondet_int(); r_vi = nondet_int(); r_inst = nondet_int(); r_arrive_clk = 0; r_lri_clk = 0; r_cycles = 0;
   XV_ASSUME(r_state >= R_IDLE && r_state <= R_READING && (r_vi == 0 || r_vi == 1) && (r_inst == READ_LEFT || r_inst == READ_RIGHT));
-  XV_ASSUME(!r_on(0) || s->_read_indicator1._counter >= 1);
-  XV_ASSUME(!r_on(1) || s->_read_indicator2._counter >= 1);
 }
 /* the invariant of a left_right whose writer mutex is free (established by the constructors, restored by every exit of update) */
 static _Bool inv_idle(struct left_right* s) {
@@ -216,32 +294,37 @@ static struct T* sel(struct left_right* s, int lri) { return lri == READ_LEFT ? 
 static void t_indicator(struct left_right* s, int i) {
   struct read_indicator* a = i == 0 ? &s->_read_indicator1 : &s->_read_indicator2;
   struct read_indicator* b = i == 0 ? &s->_read_indicator2 : &s->_read_indicator1;
-  uint64_t c0 = a->_counter, o0 = b->_counter;
+  struct read_indicator a0 = *a, b0 = *b;
   unsigned op = nondet_uint();
   if (op == 0) {
-    ri_arrive(a);
-    XV_OBL("lr.indicator.counts", a->_counter == c0 + 1 && b->_counter == o0);
-    XV_OBL("lr.indicator.counts", CM(i, n_rmw) == 1 && total_rmws() == 1 && total_stores() == 0 && CM(i, rmw1_new) == CM(i, rmw1_old) + 1);
+    ri_arrive(a);       /* exactly one RMW by one on the indicator's own state, nothing else */
+    XV_OBL("lr.indicator.counts", CM(i, n_rmw) == 1 && total_rmws() == 1 && total_stores() == 0 && RMW_BY_ONE(CM(i, rmw1_old), CM(i, rmw1_new)) && ri_same(b, &b0));
     XV_OBL("lr.sync.seq_cst", CM(i, rmw1_ord) == mo_seq_cst);                       /* (4) */
     XV_CANARY("indicator.arrive");
   } else if (op == 1) {
-    XV_ASSUME(c0 >= 1);
     ri_depart(a);
-    XV_OBL("lr.indicator.counts", a->_counter == c0 - 1 && b->_counter == o0);
-    XV_OBL("lr.indicator.counts", CM(i, n_rmw) == 1 && total_rmws() == 1 && total_stores() == 0 && CM(i, rmw1_new) == CM(i, rmw1_old) - 1);
+    XV_OBL("lr.indicator.counts", CM(i, n_rmw) == 1 && total_rmws() == 1 && total_stores() == 0 && RMW_BY_ONE(CM(i, rmw1_old), CM(i, rmw1_new)) && ri_same(b, &b0));
     XV_OBL("lr.sync.seq_cst", XV_IS_RELEASE(CM(i, rmw1_ord)));                      /* (5) */
     XV_CANARY("indicator.depart");
   } else if (op == 2) {
     _Bool e = ri_empty(a);
-    XV_OBL("lr.indicator.counts", e == (c0 == 0) && a->_counter == c0 && b->_counter == o0);
-    XV_OBL("lr.indicator.counts", total_rmws() == 0 && total_stores() == 0 && CM(i, n_load) == 1);
-    XV_OBL("lr.sync.seq_cst", CM(i, last_load_ord) == mo_seq_cst);                  /* (6) */
+    XV_OBL("lr.indicator.counts", total_rmws() == 0 && total_stores() == 0 && CM(i, n_load) >= 1 && CM(1 - i, n_load) == 0 && m_other.n_load + m_ver.n_load + m_lri.n_load == 0
+                                  && ri_same(a, &a0) && ri_same(b, &b0));
+    XV_OBL("lr.sync.seq_cst", CM(i, all_loads_sc));                                 /* (6) */
     if (e) XV_CANARY("indicator.empty"); else XV_CANARY("indicator.nonempty");
   } else if (op == 3) {
-    /* arrive; depart is the identity and empty() is true exactly between balanced pairs */
-    ri_arrive(a); _Bool e1 = ri_empty(a); ri_depart(a); _Bool e2 = ri_empty(a);
-    XV_OBL("lr.indicator.counts", !e1 && a->_counter == c0 && e2 == (c0 == 0) && b->_counter == o0);
-    XV_CANARY("indicator.pair");
+    /* abstract occupancy: from a quiescent state, after any sequence of arrive()/depart() calls (never more departures than arrivals)
+     * empty() <=> arrivals == departures; the other indicator is never touched */
+    env_busy = 1; XV_ASSUME(ri_empty(a)); env_busy = 0;
+    unsigned inside = 0; _Bool ok = 1, was_nonempty = 0;
+    for (int k = 0; k < 4; ++k) {
+      if (inside > 0 && nondet_bool()) { ri_depart(a); inside--; } else { ri_arrive(a); inside++; }
+      if (ri_empty(a) != (inside == 0)) ok = 0;
+      if (inside > 1) was_nonempty = 1;
+    }
+    XV_OBL("lr.indicator.counts", ok && ri_same(b, &b0));
+    if (inside == 0 && was_nonempty) XV_CANARY("indicator.sequence_back_to_empty");
+    if (inside == 4) XV_CANARY("indicator.sequence_four_inside");
   } else {
     struct read_indicator* p = lr_get_read_indicator(s, i);
     XV_OBL("lr.indicator.counts", p == a);
@@ -253,33 +336,61 @@ void h_indicator(void) {
   if (nondet_bool()) t_indicator(&s, 0); else t_indicator(&s, 1);
 }
 
+/* ================= empty() among readers that come and go ================= */
+void h_empty(void) {
+  struct left_right s; havoc_lr(&s); place_readers(&s);
+  int idx = nondet_int(); XV_ASSUME(idx == 0 || idx == 1);
+  unsigned before = idx == 0 ? inside0 : inside1; _Bool r_before = r_on(idx);
+  env_on = 1; env_kind = 1;
+  _Bool res = ri_empty_logged(idx == 0 ? &s._read_indicator1 : &s._read_indicator2);     /* lr.indicator.empty_linearizable is stated in there */
+  env_on = 0;
+  /* the case that matters to a writer: a reader that arrived before the call and is still inside when it returns */
+  XV_OBL("lr.indicator.empty_linearizable", !(res && r_before && r_cycles == 0 && r_on(idx)));
+  XV_OBL("lr.indicator.counts", total_rmws() == 0 && total_stores() == 0 && CM(1 - idx, n_load) == 0);
+#ifndef XV_INT
+  XV_OBL("lr.indicator.counts", res == (before == 0));          /* no interference: empty() <=> occupancy 0 */
+#endif
+  if (res) XV_CANARY("empty.true"); else XV_CANARY("empty.false");
+#ifdef XV_INT
+  if (res && before > 0) XV_CANARY("empty_int.true_after_the_last_one_left");
+  if (!res && before == 0) XV_CANARY("empty_int.false_because_someone_came");
+  if (r_before && r_cycles == 0 && r_on(idx) && (o1.cycles > 0 || o2.cycles > 0)) XV_CANARY("empty_int.old_reader_stays_others_cycle");
+#endif
+}
+
 /* ================= read_guard (RAII pair) ================= */
 void h_guard(void) {
   struct left_right s; havoc_lr(&s);
-  int v = s._version_index; uint64_t c0 = CNT(&s, v), o0 = CNT(&s, 1 - v);
+  env_busy = 1; XV_ASSUME(ri_empty(&s._read_indicator1) && ri_empty(&s._read_indicator2)); env_busy = 0;    /* nobody inside */
+  int v = s._version_index;
+  struct read_indicator* own = v == 0 ? &s._read_indicator1 : &s._read_indicator2;
+  struct read_indicator* oth = v == 0 ? &s._read_indicator2 : &s._read_indicator1;
+  struct read_indicator oth0 = *oth;
   struct read_guard g; g._indicator = 0;
   rg_ctor(&g, &s);
-  XV_OBL("lr.read.bracket", g._indicator == (v == 0 ? &s._read_indicator1 : &s._read_indicator2));
+  XV_OBL("lr.read.bracket", g._indicator == own);
   XV_OBL("lr.read.bracket", XV_READ_RETURNS_BY_VALUE);   /* the result leaves read() by value, i.e. it is copied before the guard departs */
-  XV_OBL("lr.indicator.counts", CNT(&s, v) == c0 + 1 && CNT(&s, 1 - v) == o0);
+  env_busy = 1; _Bool e_in = ri_empty(own); env_busy = 0;
+  XV_OBL("lr.indicator.counts", !e_in && ri_same(oth, &oth0));                   /* the guard is counted on the indicator the version selects, only there */
   XV_OBL("lr.read.bracket", m_ver.n_load == 1 && CM(v, n_rmw) == 1 && CM(v, rmw1_clk) > m_ver.last_load_clk && CM(1 - v, n_rmw) == 0);
   s._version_index = nondet_bool();            /* the version may change while the guard is alive */
   rg_dtor(&g);
-  XV_OBL("lr.indicator.counts", CNT(&s, v) == c0 && CNT(&s, 1 - v) == o0);
+  env_busy = 1; _Bool e_out = ri_empty(own); env_busy = 0;
+  XV_OBL("lr.indicator.counts", e_out && ri_same(oth, &oth0));                   /* departed from the same indicator */
   XV_OBL("lr.read.bracket", CM(v, n_rmw) == 2 && CM(1 - v, n_rmw) == 0 && total_stores() == 0 && m_ver.n_load == 1);
   if (v == 0) XV_CANARY("guard.v0"); else XV_CANARY("guard.v1");
 }
 
 /* ================= wait_for_readers ================= */
 void h_wait(void) {
-  struct left_right s; havoc_lr(&s);
+  struct left_right s; havoc_lr(&s); place_readers(&s);
   int idx = nondet_int(); XV_ASSUME(idx == 0 || idx == 1);
   int v0 = s._version_index, l0 = s._lr_indicator; uint64_t L = s._left.val, R = s._right.val;
   env_on = 1; env_kind = 1;
   lr_wait_for_readers(&s, idx);
   env_on = 0;
-  XV_OBL("lr.wait.spins_until_empty", CM(idx, n_load) >= 1 && CM(idx, last_load_val) == 0);
-  XV_OBL("lr.wait.spins_until_empty", CM(1 - idx, n_load) == 0 && m_other.n_load == 0);
+  XV_OBL("lr.wait.spins_until_empty", EM(idx, n) >= 1 && EM(idx, last_res));                       /* the last thing it did: empty() of that indicator returned true */
+  XV_OBL("lr.wait.spins_until_empty", EM(1 - idx, n) == 0 && em_other == 0 && CM(1 - idx, n_load) == 0 && m_other.n_load == 0);
   XV_OBL("lr.wait.spins_until_empty", !r_on(idx));   /* at the last observation the tracked reader was not on this indicator */
   XV_OBL("lr.wait.spins_until_empty", total_stores() == 0 && total_rmws() == 0 && s._version_index == v0 && s._lr_indicator == l0 && s._left.val == L && s._right.val == R);
   XV_OBL("lr.sync.seq_cst", CM(idx, all_loads_sc));                                      /* (6) */
@@ -288,6 +399,7 @@ void h_wait(void) {
 #ifdef XV_INT
   if (r_on(1 - idx)) XV_CANARY("wait_int.reader_on_other_indicator");
   if (r_cycles > 0) XV_CANARY("wait_int.reader_cycled");
+  if (o1.cycles > 0 && o2.on) XV_CANARY("wait_int.other_readers_moved");
 #endif
 }
 
@@ -296,14 +408,14 @@ static void check_toggle(struct left_right* s, int v0) {
   int nx = 1 - v0;
   XV_OBL("lr.toggle.order", m_ver.n_store == 1 && m_ver.store_val == (uint64_t)nx && s->_version_index == nx);     /* flipped exactly once */
   XV_OBL("lr.toggle.order", wait_n == 2 && wait_idx[0] == nx && wait_idx[1] == v0);
-  XV_OBL("lr.toggle.order", CM(nx, n_load) >= 1 && CM(nx, last_load_val) == 0 && CM(nx, last_load_clk) < m_ver.store_clk);
-  XV_OBL("lr.toggle.order", CM(v0, n_load) >= 1 && CM(v0, last_load_val) == 0 && CM(v0, first_load_clk) > m_ver.store_clk);
+  XV_OBL("lr.toggle.order", EM(nx, n) >= 1 && EM(nx, last_res) && EM(nx, last_ret_clk) < m_ver.store_clk && CM(nx, last_load_clk) < m_ver.store_clk);
+  XV_OBL("lr.toggle.order", EM(v0, n) >= 1 && EM(v0, last_res) && EM(v0, first_clk) > m_ver.store_clk && CM(v0, first_load_clk) > m_ver.store_clk);
   XV_OBL("lr.toggle.order", wait_ret_clk[0] < m_ver.store_clk && m_ver.store_clk < wait_ret_clk[1]);
   XV_OBL("lr.toggle.order", m_c0.n_store + m_c1.n_store + m_c0.n_rmw + m_c1.n_rmw == 0 && m_other.n_store + m_other.n_rmw == 0);
   XV_OBL("lr.sync.seq_cst", CM(0, all_loads_sc) && CM(1, all_loads_sc));                 /* (6) */
 }
 void h_toggle(void) {
-  struct left_right s; havoc_lr(&s);
+  struct left_right s; havoc_lr(&s); place_readers(&s);
   int v0 = s._version_index, l0 = s._lr_indicator; uint64_t L = s._left.val, R = s._right.val;
   env_on = 1; env_kind = 1;
   lr_toggle_logged(&s);
@@ -354,7 +466,7 @@ static void check_update(struct left_right* s, int l0, int v0, uint64_t L0, uint
   }
 }
 void h_update(void) {
-  struct left_right s; havoc_lr(&s);
+  struct left_right s; havoc_lr(&s); place_readers(&s);
   XV_ASSUME(inv_idle(&s));
   int l0 = s._lr_indicator, v0 = s._version_index; uint64_t L0 = s._left.val, R0 = s._right.val, clk0 = xv_clock;
   env_on = 1; env_kind = 1;
@@ -374,7 +486,7 @@ void h_update(void) {
 }
 /* back-to-back updates (same or different writer: the mutex serialises them), with the tracked reader running throughout */
 void h_update2(void) {
-  struct left_right s; havoc_lr(&s);
+  struct left_right s; havoc_lr(&s); place_readers(&s);
   XV_ASSUME(inv_idle(&s)); in_throw = 0;
   int l0 = s._lr_indicator, v0 = s._version_index; uint64_t L0 = s._left.val, R0 = s._right.val;
   env_on = 1; env_kind = 1;
@@ -407,7 +519,7 @@ void h_read(void) {
   int v = (int)m_ver.last_load_val, l = (int)m_lri.last_load_val;
   XV_OBL("lr.read.bracket", m_ver.n_load == 1 && (v == 0 || v == 1));
   XV_OBL("lr.read.bracket", CM(v, n_rmw) == 2 && CM(1 - v, n_rmw) == 0 && m_ver.n_rmw + m_lri.n_rmw + m_other.n_rmw == 0 && total_stores() == 0);
-  XV_OBL("lr.read.bracket", CM(v, rmw1_new) == CM(v, rmw1_old) + 1 && CM(v, rmw2_new) == CM(v, rmw2_old) - 1);     /* arrive, depart on the same indicator */
+  XV_OBL("lr.read.bracket", RMW_BY_ONE(CM(v, rmw1_old), CM(v, rmw1_new)) && RMW_BY_ONE(CM(v, rmw2_old), CM(v, rmw2_new)));     /* arrive, depart: one RMW by one each, on the same indicator */
   XV_OBL("lr.read.bracket", m_lri.n_load == 1 && rf_n == 1 && rf_inst == (l == READ_LEFT ? 0 : 1));
   XV_OBL("lr.read.bracket", m_ver.last_load_clk < CM(v, rmw1_clk) && CM(v, rmw1_clk) < m_lri.last_load_clk
                             && m_lri.last_load_clk < rf_clk && rf_clk < CM(v, rmw2_clk));
@@ -418,7 +530,7 @@ void h_read(void) {
   XV_OBL("lr.sync.seq_cst", CM(v, rmw1_ord) == mo_seq_cst);                                /* (4) */
   XV_OBL("lr.sync.seq_cst", XV_IS_RELEASE(CM(v, rmw2_ord)));                               /* (5) */
   /* wait-free: the same five steps (version load, arrive, indicator load, functor, depart) whatever the others do */
-  XV_OBL("lr.read.wait_free", xv_clock == clk0 + 5);
+  XV_OBL("lr.read.wait_free", fn_steps == 5);
   if (v == 0) XV_CANARY("read.v0"); else XV_CANARY("read.v1");
   if (l == READ_LEFT) XV_CANARY("read.left"); else XV_CANARY("read.right");
 #ifdef XV_INT
@@ -429,20 +541,27 @@ void h_read(void) {
 /* no interference: the read returns the functor's value of the instance the indicator selects and leaves everything as it was */
 void h_read_seq(void) {
   struct left_right s; havoc_lr(&s);
-  struct left_right s0 = s;
+  r_state = nondet_bool() ? R_READING : R_IDLE;      /* up to three other readers are inside, on either indicator */
+  place_readers(&s);
+  struct left_right s0 = s; int v = s._version_index;
   uint64_t res = lr_read(&s);
   XV_OBL("lr.read.bracket", xv_threw || res == (sel(&s0, s0._lr_indicator)->val ^ in_rk));
   XV_OBL("lr.read.bracket", s._version_index == s0._version_index && s._lr_indicator == s0._lr_indicator && s._left.val == s0._left.val && s._right.val == s0._right.val
-                            && s._read_indicator1._counter == s0._read_indicator1._counter && s._read_indicator2._counter == s0._read_indicator2._counter
                             && s._writer_mutex.held == s0._writer_mutex.held);
+  /* while the functor ran this reader was counted on the indicator of the version it read, and only there; afterwards the occupancy is what it was */
+  XV_OBL("lr.read.bracket", (v == 0 ? !rf_e0 : !rf_e1) && (v == 0 ? rf_e1 == (inside1 == 0) : rf_e0 == (inside0 == 0)));
+  env_busy = 1; _Bool e0 = ri_empty(&s._read_indicator1), e1 = ri_empty(&s._read_indicator2); env_busy = 0;
+  XV_OBL("lr.read.bracket", e0 == (inside0 == 0) && e1 == (inside1 == 0) && ri_same(v == 0 ? &s._read_indicator2 : &s._read_indicator1, v == 0 ? &s0._read_indicator2 : &s0._read_indicator1));
   if (xv_threw) XV_CANARY("read_seq.threw"); else XV_CANARY("read_seq.returned");
+  if (inside0 + inside1 == 3) XV_CANARY("read_seq.three_others_inside");
+  if (inside0 + inside1 == 0) XV_CANARY("read_seq.alone");
 }
 
 /* ================= constructors ================= */
 static void nsdmi(struct left_right* s) {          /* default member initialisers, extracted from the header as constants */
   s->_writer_mutex.held = 0;                        /* std::mutex() */
   s->_version_index = XV_NSDMI_version_index; s->_lr_indicator = XV_NSDMI_lr_indicator;
-  s->_read_indicator1._counter = XV_NSDMI_counter; s->_read_indicator2._counter = XV_NSDMI_counter;
+  ri_init(&s->_read_indicator1); ri_init(&s->_read_indicator2);
 }
 void h_ctor(void) {
   struct left_right s; havoc_lr(&s);
@@ -453,19 +572,20 @@ void h_ctor(void) {
   if (two) lr_ctor2(&s, a, b); else lr_ctor1(&s, a);
   XV_OBL("lr.ctor.init", inv_idle(&s) && !s._writer_mutex.held && (s._version_index == 0 || s._version_index == 1)
                          && (s._lr_indicator == READ_LEFT || s._lr_indicator == READ_RIGHT));
-  XV_OBL("lr.ctor.init", s._read_indicator1._counter == 0 && s._read_indicator2._counter == 0);
+  env_busy = 1; _Bool e0 = ri_empty(&s._read_indicator1), e1 = ri_empty(&s._read_indicator2); env_busy = 0;
+  XV_OBL("lr.ctor.init", e0 && e1);                 /* both read indicators start empty */
   XV_OBL("lr.ctor.init", s._left.val == a.val && s._right.val == (two ? b.val : a.val));
   if (two) XV_CANARY("ctor.two"); else XV_CANARY("ctor.one");
 }
 
 /* ================= model self-check: the tracked reader's step function is eventually periodic within 7 steps ================= */
 void h_env_closed(void) {
-  struct left_right s; havoc_lr(&s);
+  struct left_right s; havoc_lr(&s); place_readers(&s);
   env_self = &s;
   r_step(); r_step(); r_step();
-  int st3 = r_state, vi3 = r_vi, in3 = r_inst; uint64_t c03 = s._read_indicator1._counter, c13 = s._read_indicator2._counter;
+  int st3 = r_state, vi3 = r_vi, in3 = r_inst; unsigned i03 = inside0, i13 = inside1;
   r_step(); r_step(); r_step(); r_step();
-  XV_MODEL_ASSERT("env.closed", r_state == st3 && c03 == s._read_indicator1._counter && c13 == s._read_indicator2._counter
+  XV_MODEL_ASSERT("env.closed", r_state == st3 && i03 == inside0 && i13 == inside1
                                 && (r_state == R_IDLE || r_vi == vi3) && (r_state != R_READING || r_inst == in3));
   XV_CANARY("env_closed.reached");
 }
